@@ -235,7 +235,7 @@ def _rao_case(ctx, viol, draws, hint, j, rem, fb, mode):
 
 def _adaptive_history(ctx, viol, world, rng, i):
     window = rng.choice([1.0, 10.0, 60.0])
-    target = rng.choice([1.0, 0.9, 0.5, 0.1, 1e-9, 0.99])
+    target = rng.choice([1.0, 0.9, 0.5, 0.1, 1e-9, 0.99, 1e-17, 5e-324, 1e-300, 1.0 - 2.0**-53])
     mn = rng.choice([1.0, 1.0, 1.5, 3.0])
     mxm = rng.choice([mn, mn + 1.0, 5.0 if mn <= 5 else mn, 1e6])
     fbv = [rng.choice([0.0, 1.0 / 64, 0.25, 1.0, 7.0, 1e3, 1e300])]
